@@ -65,7 +65,15 @@ FACET_ONLY = {("scalar", "scalar"): ["normal_flux", "facet_mass"]}
 BASIS_KINDS = ["cell", "cell", "cell-subset", "facet-boundary",
                "facet-interior0", "facet-interior1"]
 ENTRIES = ["assemble", "assemble", "elemental", "coo_data", "decorator",
-           "asm", "asm-list", "asm-sides", "twice"]
+           "asm", "asm-list", "asm-sides", "twice", "reuse", "reuse"]
+# one form object assembled with a sequence of (trial, test) pairs drawn from
+# the two bases of the workload: state kept on the form between assemblies
+# (e.g. a cached pair table) must not leak from one shape to the next
+REUSE_SEQS = [[(0, 1), (1, 0)], [(1, 0), (0, 1)], [(0, 1), (1, 0), (0, 1)],
+              [(0, 0), (0, 1), (1, 0), (1, 1)], [(0, 1), (1, 1), (1, 0)],
+              [(1, 1), (0, 1), (1, 0), (0, 0)]]
+REUSE_INTEGRANDS = ["mass", "mass_nonsym", "laplace", "advect0", "xweighted",
+                    "hweighted", "scalar_param", "complex_mass"]
 POLICIES = ["random", "sticky", "pct", "starve-main", "main-first",
             "starve-worker", "roundrobin", "kernel-coarse", "reverse"]
 
@@ -112,6 +120,14 @@ def gen_workload(rng):
     if entry in ("asm-list", "asm-sides") and integ in ("coef_mass",
                                                         "coef_grad"):
         integ = "xweighted"
+    seq = None
+    if entry == "reuse":
+        if ku == "scalar" and kv == "scalar":
+            if integ not in REUSE_INTEGRANDS:
+                integ = rng.choice(REUSE_INTEGRANDS)
+            seq = rng.choice(REUSE_SEQS)
+        else:
+            entry = "assemble"
     dtype = "complex128" if integ == "complex_mass" else \
         rng.choice(["float64", "float64", "float64", "complex128", "float32"])
     coef = None
@@ -121,7 +137,7 @@ def gen_workload(rng):
           "basis": bk, "integrand": integ, "dtype": dtype, "coef": coef,
           "entry": entry, "intorder": rng.choice([1, 2, 3]),
           "subset_seed": rng.randrange(1 << 30),
-          "data_seed": rng.randrange(1 << 30),
+          "data_seed": rng.randrange(1 << 30), "seq": seq,
           "nthreads": {"mode": rng.choice(["small", "small", "near", "over",
                                            "one", "rand"]),
                        "r": rng.randrange(1 << 30)}}
@@ -177,7 +193,13 @@ def build_workload(wl):
             # no interior facet: fall back to boundary facets
             kind = "facet-boundary"
     b.kind = kind
-    if wl["entry"] == "asm-sides" and kind.startswith("facet-interior"):
+    if wl["entry"] == "reuse":
+        bu = mk(eu, part=parts[0])
+        bv = bu if ev is eu else mk(ev, part=parts[0])
+        b.ub = [bu, bv]
+        b.vb = [bu, bv]
+        b.seq = [tuple(x) for x in wl["seq"]]
+    elif wl["entry"] == "asm-sides" and kind.startswith("facet-interior"):
         b.ub = [mk(eu, side=0), mk(eu, side=1)]
         b.vb = b.ub if ev is eu else [mk(ev, side=0), mk(ev, side=1)]
     elif wl["entry"] == "asm-list" and len(parts) == 2:
@@ -207,6 +229,8 @@ def build_workload(wl):
     # thread count
     vb0 = first_u if b.vb is None else (b.vb[0] if isinstance(b.vb, list)
                                         else b.vb)
+    if wl["entry"] == "reuse":
+        vb0 = b.ub[1]
     npairs = first_u.Nbfun * vb0.Nbfun
     nr = random.Random(wl["nthreads"]["r"])
     mode = wl["nthreads"]["mode"]
@@ -244,6 +268,13 @@ def call_entry(wl, b, form_fn, nthreads):
         form = BilinearForm(nthreads=nthreads, dtype=dt)(form_fn)
     else:
         form = BilinearForm(form_fn, dtype=dt, nthreads=nthreads)
+    if entry == "reuse":
+        outs = []
+        for a, c in b.seq:
+            f = form if nthreads > 0 else BilinearForm(form_fn, dtype=dt,
+                                                       nthreads=0)
+            outs.append(digest.sparse_raw(f.assemble(ub[a], ub[c], **kw)))
+        return outs
     if isinstance(ub, list):
         if vb is None:
             out = asm(form, ub, **kw)
@@ -683,7 +714,9 @@ def execute(wl, chooser, strict, policy=None, max_steps=600000):
         "switch-between-kernel-return-and-store":
             int(sched.stats["switch_between_compute_and_store"] > 0),
         "multi-assembly-entry": int(len({c[0] for c in calls}) > 1
-                                    or wl["entry"] == "twice"),
+                                    or wl["entry"] in ("twice", "reuse")),
+        "form-object-reused-with-swapped-shapes":
+            int(wl["entry"] == "reuse" and b.Nu != b.Nv),
     })
     stats["swarm"] = {"policy": (policy or {}).get("kind", "replay"),
                       "cell": wl["cell"], "basis": b.kind,
